@@ -2,6 +2,7 @@ package props
 
 import (
 	"bufio"
+	"bytes"
 	"encoding/binary"
 	"fmt"
 	"io"
@@ -25,6 +26,7 @@ type callRec struct {
 	Off   int    // stream offset at which this Parse call started
 	Used  int    // bytes it consumed (delivered minus still buffered)
 	Alloc uint64 // bytes allocated during the call
+	Stack uint64 // growth of the memory in use for goroutine stacks during the call
 	Err   string
 }
 
@@ -36,6 +38,7 @@ type parseReport struct {
 	FirstUsed int
 	FirstAllc uint64
 	TotalAllc uint64
+	RunStack  uint64 // growth of stack memory over the whole run
 	LastErr   string
 	Recs      []callRec `json:"-"`
 }
@@ -43,6 +46,11 @@ type parseReport struct {
 // measureAlloc switches the per-call allocation measurement (two stop-the-world
 // ReadMemStats per Parse call) off where throughput matters (native fuzzing).
 var measureAlloc = true
+
+// stackConst bounds the growth of stack memory during one Parse call (the
+// parsers have no business recursing on input); generous, because stacks of
+// unrelated harness goroutines are counted as well.
+const stackConst = 1 << 20
 
 func parseAll(binary bool, input []byte) (rep parseReport) {
 	sr := &segReader{data: input}
@@ -55,17 +63,36 @@ func parseAll(binary bool, input []byte) (rep parseReport) {
 		}
 	}()
 	used := 0
+	var start runtime.MemStats
+	if measureAlloc {
+		runtime.ReadMemStats(&start)
+		defer func() {
+			// stack growth over the whole run (per-call measurement stops after 64 calls)
+			var end runtime.MemStats
+			runtime.ReadMemStats(&end)
+			if end.StackInuse > start.StackInuse {
+				rep.RunStack = end.StackInuse - start.StackInuse
+			}
+		}()
+	}
 	for {
-		if measureAlloc {
+		per := measureAlloc && rep.Calls < 64
+		if per {
 			runtime.ReadMemStats(&m0)
 		}
 		_, _, _, err := p.Parse()
-		if measureAlloc {
+		if per {
 			runtime.ReadMemStats(&m1)
 		}
 		rep.Calls++
 		now := sr.consumed - br.Buffered()
-		rec := callRec{Off: used, Used: now - used, Alloc: m1.TotalAlloc - m0.TotalAlloc}
+		rec := callRec{Off: used, Used: now - used}
+		if per {
+			rec.Alloc = m1.TotalAlloc - m0.TotalAlloc
+			if m1.StackInuse > m0.StackInuse {
+				rec.Stack = m1.StackInuse - m0.StackInuse
+			}
+		}
 		if err != nil {
 			rec.Err = err.Error()
 		}
@@ -98,6 +125,9 @@ func parseAll(binary bool, input []byte) (rep parseReport) {
 // allocProblem checks every Parse call's allocation against what the frame
 // that starts at the call's offset consistently declares.
 func allocProblem(binary bool, input []byte, rep parseReport) string {
+	if rep.RunStack > stackConst {
+		return fmt.Sprintf("decoding %d bytes in %d Parse calls grew the goroutine stacks by %d bytes; decoding needs constant stack (bound %d)", len(input), rep.Calls, rep.RunStack, stackConst)
+	}
 	for i, r := range rep.Recs {
 		var declared uint64
 		rest := input[min(r.Off, len(input)):]
@@ -118,6 +148,9 @@ func allocProblem(binary bool, input []byte, rep parseReport) string {
 		}
 		// constant + 2 x declared + 3 x bytes actually consumed by the call + one 64KiB key buffer
 		bound := uint64(allocConst) + 2*declared + 3*uint64(r.Used) + 65536
+		if r.Stack > stackConst {
+			return fmt.Sprintf("Parse call %d (stream offset %d, consumed %d) grew the goroutine stacks by %d bytes; decoding needs constant stack (bound %d)", i, r.Off, r.Used, r.Stack, stackConst)
+		}
 		if r.Alloc > bound {
 			return fmt.Sprintf("Parse call %d (stream offset %d, consumed %d) allocated %d bytes; bound is %d (64KiB + 2 x %d declared + 3 x consumed + 64KiB)", i, r.Off, r.Used, r.Alloc, bound, declared)
 		}
@@ -417,6 +450,54 @@ func TestC11Mutations(t *testing.T) {
 		rec.Case(nt, fmt.Sprintf("mut|%v|%x", bin, evid.Hash(string(in))), "mutation:"+kind)
 		if rec.WantSample(nt) && len(in) < 300 {
 			rec.Sample(nt, map[string]interface{}{"binary": bin, "mutation": kind, "input_hex": fmt.Sprintf("%x", in), "first_error": rep.FirstErr, "calls": rep.Calls})
+		}
+	})
+}
+
+// TestC11Repetition feeds long runs of one short unit (blank lines, lone CRs,
+// spaces, bare command words, no-op headers, random short strings), optionally
+// followed by a valid request: decoding must terminate, make progress, and
+// need neither heap nor stack in proportion to the length of the run.
+func TestC11Repetition(t *testing.T) {
+	rec := evid.For("C11")
+	units := [][]byte{[]byte("\n"), []byte("\r\n"), []byte(" \r\n"), []byte("\r"), []byte(" "), []byte("\x00"), []byte("get\r\n"), []byte("get \r\n"), []byte("x\n"),
+		[]byte("set k 0 0 0\r\n\r\n"), binHeader(0x0a, 0, 0, 0, 1), binHeader(0x0d, 0, 0, 0, 1), []byte("\x80"), []byte("\x80\x0a"), []byte("quit"), []byte("\t\n")}
+	rapid.Check(t, func(t *rapid.T) {
+		var unit []byte
+		if rapid.IntRange(0, 3).Draw(t, "randomUnit") == 0 {
+			unit = rapid.SliceOfN(rapid.SampledFrom([]byte{'\r', '\n', ' ', 0, 0x80, 'g', 'e', 't', '0', '1', 0xff, 0x0a}), 1, 6).Draw(t, "unit")
+		} else {
+			unit = units[rapid.IntRange(0, len(units)-1).Draw(t, "unitIdx")]
+		}
+		count := rapid.SampledFrom([]int{300, 2000, 20000, 60000}).Draw(t, "count")
+		bin := unit[0] == 0x80
+		if rapid.IntRange(0, 4).Draw(t, "forceOther") == 0 {
+			bin = !bin
+		}
+		in := bytes.Repeat(unit, count)
+		if rapid.Bool().Draw(t, "trailer") {
+			in = append(in, encodeCmd(bin, wire.Cmd{Kind: wire.Get, Keys: []string{"k"}, Opaque: 5})...)
+		}
+		if hugeDeclaration(bin, in) && !contradictoryFirst(bin, in) {
+			rec.Class("skipped-huge-consistent-declaration")
+			return
+		}
+		rep := parseAll(bin, in)
+		msg := ""
+		switch {
+		case rep.Panic != "":
+			msg = "parser panicked: " + rep.Panic
+		case rep.NoProg:
+			msg = fmt.Sprintf("Parse succeeded without consuming input (call %d): it would spin", rep.Calls)
+		default:
+			msg = allocProblem(bin, in, rep)
+		}
+		if msg != "" {
+			t.Fatalf("C11 repetition: unit %q x %d (%d bytes) parsed as binary=%v: %s (report %+v)", unit, count, len(in), bin, msg, rep)
+		}
+		rec.Case(true, fmt.Sprintf("rep|%v|%x|%d", bin, unit, count), "repetition")
+		if rec.WantSample(true) {
+			rec.Sample(true, map[string]interface{}{"binary_parser": bin, "unit_hex": fmt.Sprintf("%x", unit), "repeated": count, "parse_calls": rep.Calls, "first_error": rep.FirstErr})
 		}
 	})
 }
